@@ -46,14 +46,17 @@ def fixed(key):
 
 
 def mc_and_gen(cfg, env, tag, timeout=600):
-    r = run_tlc("MCEnvelope.tla", cfg, tag, extra=["-continue"], env=env, timeout=timeout)
+    r = run_tlc("MCEnvelope.tla", cfg, tag, extra=["-continue"], env=env, timeout=timeout,
+                keep_tags=("CASE", "ELABEL", "CEX", "KEYS"), max_keep=100000)
     if (r["error"] and not r["completed"]) or not r["completed"]:
         log(r["out"][-3000:])
         raise ToolError("TLC failed on " + cfg)
-    cases = tlc_printed(r["out"], "CASE")
-    labels = tlc_printed(r["out"], "ELABEL")
-    cex = tlc_printed(r["out"], "CEX")
-    keys = tlc_printed(r["out"], "KEYS")
+    cases = parse_printed(r["printed"]["CASE"], "CASE")
+    labels = parse_printed(r["printed"]["ELABEL"], "ELABEL")
+    cex = parse_printed(r["printed"]["CEX"], "CEX")
+    keys = parse_printed(r["printed"]["KEYS"], "KEYS")
+    if r["printed_counts"]["CASE"] != len(cases) or r["printed_counts"]["ELABEL"] != len(labels):
+        raise ToolError("generated cases/labels were lost while reading TLC's output")
     st = {"cfg": cfg, "states": r["states"], "transitions": r["transitions"], "depth": r["depth"], "completed": r["completed"],
           "violated": sorted(set(x for t in r["violated"] for x in t if x)), "cases": len(cases), "labels": len(labels),
           "cex": len(cex), "wall_s": round(r["wall_s"], 1)}
@@ -114,22 +117,23 @@ def plan(cases, tier, rnd):
 
 
 def judge(nd, tag, env):
-    r = run_tlc("TraceEnvelope.tla", "TraceEnvelope.cfg", "tv_" + tag, workers=1, env=dict(env, TRACE=nd), timeout=1500, depth_first=True)
-    out = r["out"]
-    consumed = tlc_consumed(out)
+    tags = ("VIOL", "NONCONF", "CONSUMED", "STUCK")
+    def tv(cfg, t):
+        r = run_tlc("TraceEnvelope.tla", cfg, t, workers=1, env=dict(env, TRACE=nd), timeout=1500, depth_first=True,
+                    keep_tags=tags, max_keep=200000)
+        return r, tlc_consumed("".join(r["printed"]["CONSUMED"]))
+    r, consumed = tv("TraceEnvelope.cfg", "tv_" + tag)
     m_ok = True
-    nonconfs = tlc_printed(out, "NONCONF")
+    nonconfs = parse_printed(r["printed"]["NONCONF"], "NONCONF")
     if consumed is None:
         # Layer M evaluation aborted TLC: re-judge with Layer P alone
         m_ok = False
-        r = run_tlc("TraceEnvelope.tla", "TraceEnvelopeP.cfg", "tvp_" + tag, workers=1, env=dict(env, TRACE=nd), timeout=1500, depth_first=True)
-        out = r["out"]
-        consumed = tlc_consumed(out)
+        r, consumed = tv("TraceEnvelopeP.cfg", "tvp_" + tag)
         nonconfs.append({"line": -1, "c": "", "ev": "?", "what": "LayerM-evaluation-aborted"})
         if consumed is None:
-            log(out[-3000:])
+            log(r["out"][-3000:])
             raise ToolError("trace validation did not consume the trace")
-    return tlc_printed(out, "VIOL"), nonconfs, m_ok, consumed, r
+    return parse_printed(r["printed"]["VIOL"], "VIOL"), nonconfs, m_ok, consumed, r
 
 
 def run(tier, replay_path, t0):
